@@ -24,6 +24,9 @@ type clientHello struct {
 	tls13                 bool
 	echExt                *echExt
 
+	// noExtensions is set when the message has no extensions block at all,
+	// which is allowed before TLS 1.3.
+	noExtensions bool
 	// trailing holds the bytes that follow the extensions inside the
 	// message. They are not part of a ClientHello. In an
 	// EncodedClientHelloInner, they are the padding.
@@ -100,6 +103,9 @@ func (c *clientHello) marshal(aad bool) ([]byte, error) {
 				b.AddBytes(c.LegacyCompressionMethods)
 			})
 
+			if c.noExtensions && len(c.Extensions) == 0 {
+				return
+			}
 			b.AddUint16LengthPrefixed(func(b *cryptobyte.Builder) {
 				for _, ext := range c.Extensions {
 					b.AddUint16(ext.Type)
@@ -187,7 +193,9 @@ func parseClientHello(buf []byte) (*clientHello, error) {
 	//}
 
 	var extensions cryptobyte.String
-	if !s.ReadUint16LengthPrefixed(&extensions) {
+	if s.Empty() {
+		hello.noExtensions = true
+	} else if !s.ReadUint16LengthPrefixed(&extensions) {
 		return nil, ErrDecodeError
 	}
 
